@@ -1,0 +1,84 @@
+#ifndef HGRAPH_UTIL_VERIF_HOOKS_H
+#define HGRAPH_UTIL_VERIF_HOOKS_H
+
+/**
+ * Verification hooks.
+ *
+ * Everything in this header is compiled only when ``HGRAPH_VERIF_HOOKS`` is
+ * defined, which only the out-of-tree verification build does; the CMake
+ * build and the wheel never define it. Even in a hook-enabled build every
+ * hook is a no-op until a harness installs a table at run time with
+ * ``verif::install``: ``verif::hooks()`` then returns ``nullptr`` and the
+ * guarded call sites fall through to the unchanged production code.
+ *
+ * The table lets a deterministic harness own the two sources of
+ * non-determinism of a real-time run - the host wall clock and the
+ * condition-variable wait of the real-time executor - and (optionally)
+ * observe named protocol points.
+ */
+
+#if defined(HGRAPH_VERIF_HOOKS)
+
+#include <hgraph/util/date_time.h>
+
+#include <atomic>
+#include <functional>
+#include <mutex>
+
+namespace hgraph::verif
+{
+    struct Hooks
+    {
+        /** Passed back to every callback. */
+        void *context{nullptr};
+
+        /** Replaces the host wall clock read by the real-time executor. */
+        DateTime (*wall_now)(void *context){nullptr};
+
+        /**
+         * Replaces ``condition.wait_for(lock, duration, predicate)`` of the
+         * real-time executor. Called with ``lock`` held; must return with
+         * ``lock`` held and return the value of ``predicate()`` at that moment
+         * (``true``: woken by a request, ``false``: the wait timed out).
+         */
+        bool (*wait)(void *context, std::unique_lock<std::mutex> &lock, TimeDelta duration,
+                     const std::function<bool()> &predicate){nullptr};
+
+        /** Named protocol point reached by the calling thread. */
+        void (*point)(void *context, const char *name){nullptr};
+    };
+
+    namespace detail
+    {
+        inline std::atomic<const Hooks *> installed_hooks{nullptr};
+    }
+
+    /** The installed table, or ``nullptr`` (the default). */
+    [[nodiscard]] inline const Hooks *hooks() noexcept
+    {
+        return detail::installed_hooks.load(std::memory_order_acquire);
+    }
+
+    /** Install ``table`` (``nullptr`` removes it). The table must outlive its use. */
+    inline void install(const Hooks *table) noexcept
+    {
+        detail::installed_hooks.store(table, std::memory_order_release);
+    }
+}  // namespace hgraph::verif
+
+#define HGRAPH_VERIF_POINT(name)                                                                   \
+    do {                                                                                           \
+        if (const ::hgraph::verif::Hooks *hgraph_verif_hooks_ = ::hgraph::verif::hooks();          \
+            hgraph_verif_hooks_ != nullptr && hgraph_verif_hooks_->point != nullptr)               \
+        {                                                                                          \
+            hgraph_verif_hooks_->point(hgraph_verif_hooks_->context, name);                        \
+        }                                                                                          \
+    } while (false)
+
+#else
+
+#define HGRAPH_VERIF_POINT(name) ((void)0)
+
+#endif  // HGRAPH_VERIF_HOOKS
+
+#endif  // HGRAPH_UTIL_VERIF_HOOKS_H
